@@ -42,6 +42,11 @@ def build(case):
         irr, lamv, axis = rows, lam, 1
     elif sh == "m0":
         irr, lamv, exp, axis = rows.T.copy(), lam, exp.T, 0
+    elif sh in ("c0", "c1", "c2"):
+        k = int(sh[1])
+        cube = np.stack([rows, rows[::-1]])            # (2 planes, 2 rows, n wavelengths)
+        ecube = np.stack([exp, exp[::-1]])
+        irr, lamv, exp, axis = np.moveaxis(cube, -1, k).copy(), lam, np.moveaxis(ecube, -1, k), k
     else:
         irr, lamv = rows, lam
     if um == "pint-I":
@@ -82,6 +87,17 @@ def replay_case(case):
         irr_si = np.asarray(irr.magnitude if dreye.has_units(irr) else irr, float) * (10.0 ** case["ue"])
         if bm.shape != np.shape(irr_si) or np.max(np.abs(bm - irr_si)) > 1e-12 * (np.max(np.abs(irr_si)) + 1e-300) + 1e-300:
             bad.append(("C20.inverse", where0, np.asarray(irr_si).tolist(), bm.tolist()))
+        # inverse with an SI prefix on the irradiance: plain flux in E (no prefix) -> {prefix}spectralirradiance
+        if case["p"]:
+            flux_plain = fm * 10.0 ** (-3 * case["p"])
+            kw3 = dict(prefix=PREFIX[case["p"]])
+            if axis is not None:
+                kw3["axis"] = axis
+            back2 = dreye.flux2irr(flux_plain, lam_plain, **kw3)
+            b2 = np.asarray(back2.magnitude if dreye.has_units(back2) else back2, float)
+            want2 = irr_si * 10.0 ** (3 * case["p"])
+            if b2.shape != np.shape(want2) or np.max(np.abs(b2 - want2)) > 1e-11 * (np.max(np.abs(want2)) + 1e-300) + 1e-300:
+                bad.append(("C20.inverse", dict(out_prefix=True, **where0), np.asarray(want2).tolist(), b2.tolist()))
     except Exception as ex:
         bad.append(("C20.no-error", dict(exc=type(ex).__name__, **where0), None, repr(ex)[:200]))
     return bad
